@@ -53,6 +53,8 @@ theorem run_alias (k : Nat) : (run o A P b x M k).alias = !decide (M > 1) := by
   | zero => cases P <;> simp only [run, init, Gen.C12.init] <;> split_ifs with h <;> simp [h]
   | succ k ih => simp only [run, update_alias, ih]
 
+set_option linter.unusedTactic false in
+set_option linter.unreachableTactic false in
 /-- `self.p` is (or may be) the array `self.r` — `__init__` made no private copy — only when
     `max_iter <= 1`, and then the condition under which `_update` updates `self.r` or `self.p` IN PLACE
     (`Gen.C12.updInplaceGuard`, collected by the translator from every in-place statement on these two
@@ -62,8 +64,10 @@ theorem alias_branch_unreachable (k : Nat) (h : (run o A P b x M k).alias = true
   rw [run_alias] at h
   rw [iter_counts_updates]
   simp at h
-  simp only [Gen.C12.updInplaceGuard, decide_eq_false_iff_not]
-  omega
+  -- whatever and / or combination of integer path conditions the translator collected
+  first
+    | (simp only [Gen.C12.updInplaceGuard, decide_eq_false_iff_not]; omega)
+    | (simp [Gen.C12.updInplaceGuard] <;> omega)
 
 /-- `self.x` is the array the caller passed and no statement of `__init__` / `_update` rebinds it: the
     caller's array holds the iterate (the code updates it in place). -/
